@@ -55,6 +55,7 @@ class H1Client:
         self.ws = None  # WSPeer after a websocket switch
         self.h2 = None  # H2Peer after an h2c switch
         self.progress: Dict[str, Any] = {}
+        self._early_logged = False
 
     # -- feeding -------------------------------------------------------------------------
     def step(self, st: Dict[str, Any]):
@@ -71,6 +72,21 @@ class H1Client:
             self.feed_upto(upto)
         elif s == "ws":
             return self.ws_client().step(st)
+        elif s == "ws_early":
+            # a WebSocket frame written before the server answered the handshake
+            from .wsclient import OP, frame
+
+            text = tpat(st["pid"], 0, st["len"])
+            rid = str(st.get("app", "1"))
+            sent = self.sess.ws_sent.setdefault(rid, [])
+            sent.append({"kind": "text", "payload": text})
+            data = frame(OP["text"], text.encode())
+            self.sess.trace.log("c_send", upto=self.pos, n=len(data), reqs=[], cerr=False)
+            self.sess.trace.log("c_ws", app=rid, kind="text", mid=len(sent), size=len(text), over=False, frags=1, early=True)
+            self.sess.env.feed(data)
+        elif s == "ws?":
+            # only a client whose handshake was accepted goes on to send messages
+            return self.ws.step(dict(st, s="ws")) if self.ws is not None else None
         else:
             raise AssertionError("unknown step %r" % (st,))
 
@@ -90,6 +106,13 @@ class H1Client:
                 changed.append(dict(prog, app=r["rid"]))
         cerr = upto > self.sess.script.get("cerr_at", 1 << 30)
         self.sess.trace.log("c_send", upto=upto, n=len(data), reqs=changed, cerr=cerr)
+        ew = self.sess.script.get("early_ws")
+        if ew and upto >= ew["end"] and not self._early_logged:
+            # a WebSocket message the client wrote right behind its opening handshake
+            self._early_logged = True
+            text = tpat(ew["pid"], 0, ew["len"])
+            self.sess.ws_sent.setdefault(ew["rid"], []).append({"kind": "text", "payload": text})
+            self.sess.trace.log("c_ws", app=ew["rid"], kind="text", mid=1, size=len(text), over=False, frags=1)
         if data:
             self.sess.env.feed(data)
 
